@@ -87,6 +87,16 @@ func (e *Enc) loopCandidates(f *Frame, li *loopInfo) []*Clause {
 				return mk(SBool, "bvsle", v, bvLit(1<<32)), ok
 			})
 		case SSlice:
+			// the slice is nil or lives in memory allocated since the loop was
+			// entered (so writes through it cannot touch anything older)
+			addC(fmt.Sprintf("%s is nil or allocated since loop entry", pn), func(f *Frame, get func(ssa.Value) (Term, bool), st *State) (Term, bool) {
+				v, ok := get(p)
+				hi := f.headerIn[h]
+				if hi == nil {
+					return tTrue, false
+				}
+				return or(eq(slBase(v), intLit(0)), gt(slBase(v), hi.st.alloc)), ok
+			})
 			addC(fmt.Sprintf("len(%s) >= 1", pn), func(f *Frame, get func(ssa.Value) (Term, bool), st *State) (Term, bool) {
 				v, ok := get(p)
 				return ge(slLen(v), intLit(1)), ok
